@@ -168,6 +168,22 @@ def impl_functions():
             ty_._base = None
     fs['ttl_next_line_token'] = next_tok
 
+    fs['ttl_clean_line'] = lambda strs, flag, opt, num=0: _bounded(ty_._clean_line, strs[0])
+    fs['ttl_is_num_literal'] = lambda strs, flag, opt, num=0: "1" if ty_._is_num_literal(strs[0]) else "0"
+
+    def parse_elem(strs, flag, opt, num=0):
+        saved = tt.urljoin
+        tt.urljoin = _stub
+        ty_._base = opt
+        ty_._prefixes = dict(zip(strs[1::2], strs[2::2]))
+        try:
+            return ty_._parse_elem(strs[0])
+        finally:
+            tt.urljoin = saved
+            ty_._base = None
+            ty_._prefixes = {}
+    fs['ttl_parse_elem'] = parse_elem
+
     def expand(strs, flag, opt, num=0):
         ty_._prefixes = dict(zip(strs[1::2], strs[2::2]))
         return ty_._expand_prefixed_datatype_if_needed(strs[0])
@@ -201,7 +217,7 @@ NT_PIECES = ['<http://e/a>', '<http://e/b#x>', '<', '>', '"', '"', '\\"', '\\\\'
 
 
 TTL_FUNCS = ['ttl_remove_comments_if_needed', 'ttl_find_next_blank', 'ttl_count_prior_backslashes', 'ttl_find_next_unescaped_quotes',
-             'ttl_find_next_quoted_literal_ending', 'ttl_expand_prefixed_datatype_if_needed', 'ttl_parse_cornered_element', 'ttl_next_line_token', 'ttl_next_line_token']
+             'ttl_find_next_quoted_literal_ending', 'ttl_expand_prefixed_datatype_if_needed', 'ttl_parse_cornered_element', 'ttl_next_line_token', 'ttl_next_line_token', 'ttl_clean_line', 'ttl_is_num_literal', 'ttl_parse_elem', 'ttl_parse_elem']
 TTL_PIECES = ['"', '"', '\\"', '\\\\', '\\', ' #', ' # c', '#', ' ', ' ', 'ex:a', 'ex:p', '<http://e/x>', '^^', '^^xsd:int', '^^<http://e/dt>', '^^ex:dt', '@en', '@en-GB',
               ' .', ' ;', ' ,', '.', 'a', 'é', '12', '_:b', ':', "'", '\u2028']
 
@@ -224,6 +240,29 @@ def gen_ttl(rng):
         return "F %s 0 N %s" % (name, " ".join(enc(x) for x in strs)), (name, strs, False, None, 0)
     if name == 'ttl_remove_comments_if_needed':
         return "G %s 0 %s" % (name, enc(line)), (name, [line], False, None, 0)
+    if name == 'ttl_clean_line':
+        raw = "".join(rng.choice(['ex:s', ' ', '  ', '   ', '\t', '\r', '\n', '"a # b"', '"', '\\"', ' #', '# c', ' # c', '.', ';', 'é', '\x0b', '\xa0']) for _ in range(rng.randint(0, 8)))
+        return "G %s 0 %s" % (name, enc(raw)), (name, [raw], False, None, 0)
+    if name in ('ttl_is_num_literal', 'ttl_parse_elem'):
+        r_ = rng.random()
+        if r_ < 0.3:
+            tok = rng.choice(['', '+', '-']) + rng.choice(['0', '7', '12', '007', '', '3.0', '3.5', '.5', '5.', '1.2.3', '12a', '0.000', '-1', '1 ', ' 2'])
+        elif r_ < 0.5:
+            tok = rng.choice(['a', 'rdf:type', 'true', 'false', 'True', 'b', 'rdf:typ', '_:b1', '_:', '[]', ''])
+        elif r_ < 0.7:
+            tok = rng.choice(['<http://e/a>', '<rel>', '<', '<>', '<#x>'])
+        elif r_ < 0.85:
+            tok = rng.choice(['ex:a', 'e:b:c', ':x', 'zz:q', 'xsd:int', 'http://e/x', 'ex:'])
+        else:
+            tok = '"' + rstr(rng, ['a', '\\"', ' '], 0, 2) + '"' + rng.choice(['', '@en', '^^xsd:int', '^^<http://e/dt>', '^^ex:dt', '^^zz:q'])
+        if name == 'ttl_is_num_literal':
+            return "H %s 0 0 N %s" % (name, enc(tok)), (name, [tok], False, None, 0)
+        opt = None if rng.random() < 0.5 else 'http://base.example/dir/'
+        keys = rng.sample(['ex', 'e', 'xsd', '', 'rdf'], rng.randint(0, 4))
+        strs = [tok]
+        for k in keys:
+            strs += [k, rng.choice(['http://example.org/', 'http://e.org/ns#'])]
+        return "H %s 0 0 %s %s" % (name, 'N' if opt is None else enc(opt), " ".join(enc(x) for x in strs)), (name, strs, False, opt, 0)
     if name == 'ttl_parse_cornered_element':
         tok = rng.choice(['<http://e/a>', '<rel>', '<#frag>', '</abs>', '<>', '<', 'x', '', '<urn:x:y>'])
         opt = None if rng.random() < 0.4 else rng.choice(['http://base.example/dir/', 'http://b/x#', ''])
